@@ -153,6 +153,10 @@ def get_fn(i, ctxful):
             # first parameter is NOT called 'context': must not get the context prepended
             def fn(contextual_arg, *args, _name=f'k{i}'):
                 return _call(_name, (contextual_arg,) + args)
+        elif ctxful == 'second':
+            # 'context' is a parameter name, but not the first one: no context is inserted
+            def fn(first, context=None, *args, _name=f'q{i}'):
+                return _call(_name, (first, context) + args)
         elif ctxful == 'partial':
             import functools
 
@@ -167,7 +171,8 @@ def get_fn(i, ctxful):
             def fn(*args, _name=f'f{i}'):
                 return _call(_name, args)
         try:
-            fn.__name__ = {True: f'g{i}', False: f'f{i}', 'lookalike': f'k{i}'}.get(ctxful, f'p{i}')
+            fn.__name__ = {True: f'g{i}', False: f'f{i}', 'lookalike': f'k{i}',
+                           'second': f'q{i}'}.get(ctxful, f'p{i}')
         except AttributeError:
             pass
         _FUNCS[key] = fn
@@ -191,7 +196,7 @@ def _call_sub(fname, args):
     if k is not None:
         k.yield_point('task.hold')
     run.ncalls_sub = getattr(run, 'ncalls_sub', 0) + 1
-    sub = context.call_workflow(wf, f'sub-{marker[1]}-{run.ncalls_sub}')
+    sub = context.call_workflow(wf, f'sub-{marker[1][1]}-{run.ncalls_sub}')
     v = value_of(fname, argsigs + (enc(sub),))
     run.seq += 1
     run.calls.append((run.seq, 'end', fname, argsigs, v))
@@ -285,7 +290,7 @@ def fname_of(sp):
     if sp.get('caller'):
         return 'h' + str(sp['fi'])
     fk = sp.get('fkind', 'ctx' if sp['ctxful'] else 'plain')
-    return {'plain': 'f', 'ctx': 'g', 'lookalike': 'k', 'partial': 'p'}[fk] + str(sp['fi'])
+    return {'plain': 'f', 'ctx': 'g', 'lookalike': 'k', 'partial': 'p', 'second': 'q'}[fk] + str(sp['fi'])
 
 
 def prefix_of(sp):
@@ -347,12 +352,17 @@ class World:
                     st = (sp['static'][0],) + tuple(x for x in st if x != 'results')
                 if sp.get('fkind') == 'lookalike':
                     st = ('L',) + tuple(st)
+                if sp.get('fkind') == 'second':
+                    st = ('F', 'S') + tuple(st)
                 sp['static'] = st
         else:
-            fk = t.weighted([(12, 'plain'), (5, 'ctx'), (1, 'lookalike'), (1, 'partial')], 'fkind')
+            fk = t.weighted([(12, 'plain'), (5, 'ctx'), (1, 'lookalike'), (1, 'partial'), (1, 'second')],
+                            'fkind')
             st = self.gen_static()
             if fk == 'lookalike':
                 st = ('L',) + tuple(st)       # its first (positional) parameter needs a value
+            if fk == 'second':
+                st = ('F', 'S') + tuple(st)   # values for `first` and for the parameter named context
             sp = {'name': ('t0', 't1', 't2', 't3', 't0-x', 'results-x')[t.draw(6, 'name')], 'fi': t.draw(5, 'fn'),
                   'ctxful': fk == 'ctx', 'fkind': fk, 'static': st}
         Task = _P['pw'].Task
@@ -822,13 +832,17 @@ def make_distributed_stubs(env_ref, stats):
 # one simulated run: one workflow, several executions
 # --------------------------------------------------------------------------
 class _UuidStub:
+    """Seeded uuid4.  Distinct by construction (a counter is part of the value), so that
+    zeroed or exhausted tapes - as produced by shrinking - can never fabricate equal keys."""
+
     def __init__(self, tape):
         self.tape = tape
+        self.n = 0
 
     def uuid4(self):
-        hi = self.tape.draw(1 << 30, 'uuid')
-        lo = self.tape.draw(1 << 30, 'uuid')
-        return _uuid.UUID(int=(hi << 64) | lo | (4 << 76))
+        self.n += 1
+        r = self.tape.draw(1 << 30, 'uuid')
+        return _uuid.UUID(int=(r << 96) | (4 << 76) | (self.n << 32) | (r ^ 0x5A5A5A))
 
 
 def run_one(cfg, tape: Tape, want_trace=False):
@@ -1126,5 +1140,5 @@ def budget(tier):
         return {'runs': 400_000, 'chunk': 1000, 'run_timeout': 20, 'selftest_every': 200, 'xproc_runs': 500,
                 'chunk_timeout': 1500, 'wall_limit': 3 * 3600, 'shrink_evals': 2500,
                 'shrink_seconds': 240, 'xproc_timeout': 900}
-    return {'runs': 6000, 'chunk': 100, 'run_timeout': 10, 'selftest_every': 40, 'xproc_runs': 150,
+    return {'runs': 6000, 'chunk': 100, 'run_timeout': 20, 'selftest_every': 40, 'xproc_runs': 150,
             'chunk_timeout': 600, 'wall_limit': 1500, 'shrink_evals': 1200, 'shrink_seconds': 60}
